@@ -162,6 +162,10 @@ def check_h2c_upgrades(ctx):
         if r is None:
             ctx.broken.append("K_h2c: harness did not answer case %d" % c["id"])
             return
+        if C04.two_size_updates(c):
+            # two dynamic-table size updates at the start of one header block: the pinned hpack decoder rejects the block, so
+            # the message is not received at all (finding h2-hpack-two-size-updates, recorded and printed under C04)
+            continue
         # pairing only: how exactly a paired stream's fields are reported is property C04's business
         devs = [d for d in C04.evaluate(c, m, r) if not d[1].startswith("stream ")]
         ctx.count_case(("h2c-upgrade", json.dumps(c, sort_keys=True)[:3000]), True,
